@@ -123,18 +123,17 @@ func inboundMappedType(typ *schema.TypeUnion, stg schema.UnionRepresentation_Key
 // asKinded can be called on a kinded union node to obtain a node
 // representing one of its members, identified by kind.
 func (w *_nodeRepr) asKinded(stg schema.UnionRepresentation_Kinded, kind datamodel.Kind) *_nodeRepr {
-	name := stg.GetMember(kind)
-	members := w.schemaType.(*schema.TypeUnion).Members()
-	for i, member := range members {
-		if member.Name() != name {
-			continue
-		}
-		w2 := *w
-		w2.val = w.val.Field(i).Elem()
-		w2.schemaType = member
-		return &w2
+	// The union holds exactly one member, and it is that member which answers,
+	// whatever kind the caller has in mind: when the kinds differ,
+	// the member's own accessors report the wrong kind.
+	haveIdx, mval := unionMember(w.val)
+	if haveIdx < 0 {
+		panic(fmt.Sprintf("bindnode: kinded union %s has no member", w.val.Type()))
 	}
-	panic("bindnode TODO: GetMember result is missing?")
+	w2 := *w
+	w2.val = mval
+	w2.schemaType = w.schemaType.(*schema.TypeUnion).Members()[haveIdx]
+	return &w2
 }
 
 func (w *_nodeRepr) LookupByString(key string) (datamodel.Node, error) {
